@@ -213,13 +213,27 @@ def finalSt (st : St) (i : Nat) : List (Op × Obs) → Option St
 structure Call where
   thread : Nat
   index : Nat
+  /-- number of the per-key part of a multi-key call (see `Call.parts`) -/
+  sub : Nat := 0
   op : Op
   inv : Nat
   ret : Nat
   obs : Obs
 deriving Repr
 
-def Call.same (a b : Call) : Bool := a.thread == b.thread && a.index == b.index
+def Call.same (a b : Call) : Bool := a.thread == b.thread && a.index == b.index && a.sub == b.sub
+
+/-- `WriteMulti` and `DeleteRange` lock every key separately and promise no
+    atomicity across the keys of one call (the statement is per key): an accepted
+    multi-key write and a multi-key range delete take effect key by key, each part
+    somewhere between the call's invocation and its response. -/
+def Call.parts (c : Call) : List Call :=
+  match c.op, c.obs with
+  | .write batch, .ok =>
+    if batch.length ≤ 1 then [c] else batch.zipIdx.map fun (kv, j) => { c with sub := j, op := .write [kv] }
+  | .delrange keys mn mx, .ok =>
+    if keys.length ≤ 1 then [c] else keys.zipIdx.map fun (k, j) => { c with sub := j, op := .delrange [k] mn mx }
+  | _, _ => [c]
 
 /-- `c` may be linearized next: no other pending call responded before `c` was invoked -/
 def minimal (pending : List Call) (c : Call) : Bool :=
@@ -238,10 +252,13 @@ def linearizable : Nat → St → List Call → Bool
          fs.all Fail.isStale && linearizable fuel st' (pending.filter fun p => !p.same c))
 
 /-- **the statement on a case that ends in a concurrent history**: the prefix
-    satisfies the sequential statement and the history is linearizable after it -/
+    satisfies the sequential statement and the history, taken key by key
+    (`Call.parts`), is linearizable after it -/
 def holdsOnConc (pre : List (Op × Obs)) (hist : List Call) : Bool :=
   match finalSt {} 0 pre with
   | none => false
-  | some st => linearizable hist.length st hist
+  | some st =>
+    let calls := hist.flatMap Call.parts
+    linearizable calls.length st calls
 
 end Influx.Spec.C09
